@@ -24,6 +24,8 @@ pub enum Pos {
     Huge,
     /// Some(2^32 - 2): crosses the 32-bit boundary with the next few appends
     Near32,
+    /// Some(0), whatever the queue holds
+    Zero,
 }
 
 #[derive(Clone, Copy, Debug, PartialEq, Eq, Hash, serde::Serialize, serde::Deserialize)]
@@ -69,6 +71,10 @@ pub enum Tr {
     Mid,
     Last,
     Beyond,
+    /// position 0, whatever the queue holds
+    Zero,
+    /// 2^61: far beyond anything appended
+    Far,
 }
 
 #[derive(Clone, Debug, PartialEq, Eq, Hash, serde::Serialize, serde::Deserialize)]
@@ -131,6 +137,7 @@ impl Resolver {
                     (Pos::Auto, _) => None,
                     (Pos::Huge, _) => Some((1u64 << 62) - 4),
                     (Pos::Near32, _) => Some((1u64 << 32) - 2),
+                    (Pos::Zero, _) => Some(0),
                     (_, None) => Some(0),
                     (Pos::Retry, Some(n)) => Some(n.saturating_sub(1)),
                     (Pos::Past, Some(n)) => Some(n.saturating_sub(2)),
@@ -175,6 +182,8 @@ impl Resolver {
                             }
                             Tr::Last => last,
                             Tr::Beyond => last + 3,
+                            Tr::Zero => 0,
+                            Tr::Far => 1u64 << 61,
                         }
                     }
                 };
@@ -399,5 +408,31 @@ pub fn a_window() -> Vec<Op> {
     v.push(Op::Trunc { q: QA, at: Tr::First });
     v.push(Op::Trunc { q: QA, at: Tr::Mid });
     v.push(Op::Trunc { q: QB, at: Tr::First });
+    v
+}
+
+/// A_shapes: unusual but legal argument shapes on queues a and b (run with unusual queue names):
+/// explicit position 0 / next / far ahead, truncations to 0 and to 2^61, batches mixing empty and
+/// non-empty payloads in every order of three, single empty payloads, delete + create, restart.
+pub fn a_shapes() -> Vec<Op> {
+    let mut v = vec![Op::Reopen];
+    for q in [QA, QB] {
+        v.push(Op::Create(q));
+        v.push(Op::Delete(q));
+        v.push(Op::app(q, Pos::Auto, Sz::S3));
+        v.push(Op::app(q, Pos::Auto, Sz::S0));
+        v.push(Op::app(q, Pos::Zero, Sz::S3));
+        v.push(Op::app(q, Pos::Exact, Sz::S1));
+        v.push(Op::app(q, Pos::Huge, Sz::S3));
+        v.push(Op::Trunc { q, at: Tr::Zero });
+        v.push(Op::Trunc { q, at: Tr::Far });
+        v.push(Op::Trunc { q, at: Tr::Mid });
+    }
+    for sizes in [vec![Sz::S0, Sz::S0], vec![Sz::S0, Sz::S3, Sz::S0], vec![Sz::S3, Sz::S0, Sz::S0], vec![Sz::S0, Sz::S0, Sz::S3], vec![Sz::S3, Sz::S0, Sz::S5]] {
+        v.push(Op::Append { q: QA, pos: Pos::Auto, sizes });
+    }
+    v.push(Op::Append { q: QB, pos: Pos::Gap, sizes: vec![Sz::S0, Sz::S1] });
+    v.push(Op::app(QZ, Pos::Auto, Sz::S3));
+    v.push(Op::Trunc { q: QZ, at: Tr::Zero });
     v
 }
